@@ -248,6 +248,42 @@ func main() {
 				e.Strs("paginateBody", st, "conditions and assignments of paginateIDs, source order")
 			}
 		}
+		// ---- the token text of an aggregation source: the cache of ValueBySource must be an identity
+		if f, err := r.Load("frac/processor/aggregator.go"); err != nil {
+			e.Missing("aggregator.go", err)
+		} else if fd := f.Func("SourcedNodeIterator", "ValueBySource"); fd == nil {
+			e.Missing("valueBySourceCache", "ValueBySource not found")
+		} else {
+			var keys, vals []string
+			ast.Inspect(fd.Body, func(n ast.Node) bool {
+				switch x := n.(type) {
+				case *ast.IndexExpr:
+					if f.Render(x.X) == "s.tokensCache" {
+						keys = append(keys, f.Render(x.Index))
+					}
+				case *ast.CallExpr:
+					if strings.HasSuffix(f.Render(x.Fun), "GetValByTID") && len(x.Args) == 1 {
+						arg := f.Render(x.Args[0])
+						vals = append(vals, arg)
+					}
+				}
+				return true
+			})
+			tidDef := ""
+			ast.Inspect(fd.Body, func(n ast.Node) bool {
+				if as, ok := n.(*ast.AssignStmt); ok && len(as.Lhs) == 1 && f.Render(as.Lhs[0]) == "tid" {
+					tidDef = f.Render(as.Rhs[0])
+				}
+				return true
+			})
+			for i, v := range vals {
+				if v == "tid" && tidDef != "" {
+					vals[i] = tidDef
+				}
+			}
+			e.Strs("valueBySourceCacheKeys", keys, "ValueBySource: every key expression used with s.tokensCache (reads and the write)")
+			e.Strs("valueBySourceTokens", vals, "ValueBySource: the TID every GetValByTID call looks up (a local `tid` resolved)")
+		}
 		// ---- API boundary: storeapi.GrpcV1.doSearch
 		if f, err := r.Load("storeapi/grpc_search.go"); err != nil {
 			e.Missing("grpc_search.go", err)
@@ -392,5 +428,5 @@ func main() {
 				e.Strs("replicaOrder", st, "searchShard: the visiting order of the replicas")
 			}
 		}
-	}, "fracmanager/searcher.go", "fracmanager/list.go", "seq/qpr.go", "seq/seq.go", "proxy/search/ingestor.go", "storeapi/grpc_search.go", "storeapi/grpc_v1.go", "proxy/search/search_request.go")
+	}, "fracmanager/searcher.go", "fracmanager/list.go", "seq/qpr.go", "seq/seq.go", "proxy/search/ingestor.go", "storeapi/grpc_search.go", "storeapi/grpc_v1.go", "proxy/search/search_request.go", "frac/processor/aggregator.go")
 }
